@@ -713,10 +713,15 @@ def types_oracle(ctx, prop):
     cfg = write_cfg("Enum_Types_gen", open(os.path.join(SPEC, "Enum_Types.cfg")).read())
     r = tlc("MC_Types", cfg=cfg, workers=8, cont=False, capture=("CASE", raw + ".a"), name="enum-types")
     ctx.add_mc(r, "enum-type-behaviours(<=2 types, 1 function, 1 edit)")
-    cfg = write_cfg("Sim_Types_gen", "SPECIFICATION Spec\nCONSTANTS\n  Lists <- ListsSmall\n  MaxTypes = 3\n  MaxFuncs = 3\n  MaxEdits = 5\nINVARIANTS\n  EmitCase\nCHECK_DEADLOCK FALSE\n")
+    cfg = write_cfg("Sim_Types_gen", "SPECIFICATION Spec\nCONSTANTS\n  Lists <- ListsSmall\n  MaxTypes = 3\n  MaxFuncs = 3\n  MaxEdits = 5\n  EditOps = {\"build\", \"findadd\", \"nametype\", \"delete\", \"root\", \"gc\"}\nINVARIANTS\n  EmitCase\nCHECK_DEADLOCK FALSE\n")
     r = tlc("MC_Types", cfg=cfg, workers=8, cont=False, capture=("CASE", raw + ".b"), name="sim-types", simulate="num=%d" % (40 if q else 800), extra=["-depth", "14", "-seed", str(ctx.seed)])
     ctx.add_mc(r, "simulate-type-behaviours(<=3 types, 3 functions, 5 edits)")
-    a = [l for l in open(raw + ".a")]
+    # a type that gets a name, loses its last user, is swept (or not) and is asked for again: every history of four edits over
+    # naming, deletion, GC and find / add
+    cfg = write_cfg("Enum_Types_genN", "SPECIFICATION Spec\nCONSTANTS\n  Lists <- ListsTwo\n  MaxTypes = %d\n  MaxFuncs = 1\n  MaxEdits = 4\n  EditOps = {\"findadd\", \"nametype\", \"delete\", \"gc\"}\nINVARIANTS\n  EmitCase\nCHECK_DEADLOCK FALSE\n" % (1 if q else 2))
+    r = tlc("MC_Types", cfg=cfg, workers=8, cont=False, capture=("CASE", raw + ".n"), name="enum-types-named")
+    ctx.add_mc(r, "enum-type-behaviours(naming, deletion, GC, find / add: 4 edits)")
+    a = [l for l in open(raw + ".a")] + [l for l in open(raw + ".n") if "nametype" in l]
     b = sorted(set(open(raw + ".b")))
     budget = (4000, 4000) if q else (10 ** 9, 200000)
     pick = lambda ls, n: ls if len(ls) <= n else [l for l in ls if (zlib.crc32(l.encode()) + ctx.seed) % max(1, len(ls) // n) == 0]
